@@ -185,7 +185,7 @@ type consCase struct {
 
 // C06: consumer-side range/pull code sees exactly what the generator yields.
 func C06(c *vf.Check) {
-	consts := map[string]string{"MaxSize": tier(c, "3", "4"), "TapeLen": tier(c, "3", "2")}
+	consts := map[string]string{"MaxSize": "3", "TapeLen": tier(c, "3", "4")}
 	var cases []consCase
 	res := c.S.RunTLC(vf.TLCRun{Module: "MC_Cons", Cfg: "MC_Cons.cfg", Consts: consts, Timeout: tier(c, 10*time.Minute, 90*time.Minute),
 		OnCase: func(raw []byte) {
@@ -372,7 +372,7 @@ func C06(c *vf.Check) {
 
 	// consumers that are generators themselves (transformers): F_xf of MC_Src.tla
 	rule, bounds := c.Cov["rule"], c.Cov["bounds"]
-	runFam(c, famSpec{id: "C06", fam: "xf", name: "F_xf", sizeQ: "4", sizeT: "5", tapeQ: "2", tapeT: "3", callsQ: 6, callsT: 8,
+	runFam(c, famSpec{id: "C06", fam: "xf", name: "F_xf", sizeQ: "4", sizeT: "4", tapeQ: "2", tapeT: "3", callsQ: 6, callsT: 8,
 		keys: fullKeys, deleg: true, budget: 40, rule: "F_xf"})
 	c.Cov["rule"] = fmt.Sprint(rule) + "; plus F_xf: every GENERATOR up to MaxSize that ranges over a local iterator (for k := range it / for range it) with yields, effects, hand pulls and guarded-free break / continue / return inside the loop, the loop also inside switch clauses and if statements"
 	c.Cov["bounds"] = J{"MC_Cons": bounds, "F_xf": c.Cov["bounds"]}
